@@ -997,6 +997,19 @@ def _x_unnamed(draw, og):
                                "how": draw(st.sampled_from(["dict", "attributes", "from_attributes", "clean"]))}}
 
 
+@extra("construct-from-arrays")
+def _x_from_arrays(draw, og):
+    """constructors given numpy arrays (exponents already in the storage type, coefficient arrays): inputs, not scratch space"""
+    D = draw(st.integers(1, 3))
+    n = draw(st.integers(1, 3))
+    rows = draw(st.lists(st.lists(st.integers(0, 3), min_size=D, max_size=D), min_size=n, max_size=n, unique_by=tuple))
+    edt = draw(st.sampled_from(["uint32", "uint32", "int64", "uint8"]))
+    coefs = [NP(draw(st.lists(st.integers(-3, 3), min_size=2, max_size=2)), "int64") for _ in rows]
+    return {"args": [NP(rows, edt), coefs],
+            "kw": {"how": draw(st.sampled_from(["ndpoly", "polynomial_from_attributes", "from_attributes"])),
+                   "retain": draw(st.booleans())}}
+
+
 @extra("construct-nested-list")
 def _x_nested(draw, og):
     a = og.array(draw, min_ndim=1, max_ndim=2)
@@ -1133,6 +1146,15 @@ def invoke_extra(name, args, kw):
         if how == "from_attributes":
             return numpoly.ndpoly.from_attributes(exponents=rows, coefficients=coefs)
         return numpoly.clean_attributes(numpoly.ndpoly.from_attributes(exponents=rows, coefficients=coefs))
+    if name == "construct-from-arrays":
+        E, C = args
+        if kw["how"] == "ndpoly":
+            out = numpoly.ndpoly(exponents=E, shape=(2,))  # (allocates only: the coefficients are the caller's to fill)
+            for key in out.keys:
+                out.values[key] = 0
+            return out
+        ctor = numpoly.polynomial_from_attributes if kw["how"] == "polynomial_from_attributes" else numpoly.ndpoly.from_attributes
+        return ctor(E, C, retain_coefficients=kw["retain"], retain_names=kw["retain"])
     if name == "construct-nested-list":
         items = [x for x in p] if kw["depth"] == 1 or p.ndim < 2 else [[y for y in x] for x in p]
         return numpoly.polynomial(items)
